@@ -16,9 +16,45 @@ NS = "trompeloeil::"
 
 # ----------------------------------------------------------------------------- state tables
 # Shared state G (confirmed by reading; one reason each)
+DYN_G = {}          # erased field -> reason; roles discovered in the unit being analysed (set_unit)
+DYN_CONTAINER = set()
+
+
+def set_unit(tu):
+    """Shared fields are recognised by role, so that a renamed or regrouped member keeps its classification:
+    the handler's limits and counter (rules/C03.roles: what get_min_calls()/get_calls() return plus the one
+    integral field left), the expectation's only boolean member (the reported flag), the only pointer member of
+    the move-nulling slot, the monitor's reference (or pointer) to that slot."""
+    DYN_G.clear()
+    DYN_CONTAINER.clear()
+    try:
+        from rules import C03
+        for leaf in C03.roles(tu).values():
+            DYN_G[leaf] = "call limits and counter, read through sequence lists by other threads' calls"
+        for c in tu.cls_by_qe.get("trompeloeil::sequence_handler_base", [])[:1]:
+            for f in c.get("fields", ()):
+                if erase(f["t"].replace("const ", "").strip()) in tu.cls_by_qe:
+                    DYN_CONTAINER.add(erase(f["q"]))
+    except Exception:
+        pass
+    for cq, pred, why in (
+            ("trompeloeil::call_matcher", lambda f: f["t"] in ("bool", "_Bool"),
+             "reported flag, written by calls and by mock destruction"),
+            ("trompeloeil::null_on_move", lambda f: f["t"].rstrip().endswith("*"), "monitor slot inside a watched object"),
+            ("trompeloeil::lifetime_monitor",
+             lambda f: re.match(r"(trompeloeil::)?lifetime_monitor \*\s*(&|\*)\s*(const)?$", f["t"].strip()) is not None,
+             "monitor's reference to the slot inside the watched object")):
+        for c in tu.cls_by_qe.get(cq, [])[:1]:
+            hit = [f for f in c.get("fields", ()) if pred(f)]
+            if len(hit) == 1:
+                DYN_G[erase(hit[0]["q"])] = why
+
+
 def g_class(field):
     """Return a reason string if the (un-erased) qualified field name is shared state."""
     fe = erase(field)
+    if fe in DYN_G and not (fe.startswith("trompeloeil::null_on_move::") and "lifetime_monitor" not in field):
+        return DYN_G[fe]
     if fe in ("trompeloeil::list_elem::next", "trompeloeil::list_elem::prev"):
         m = re.match(r"trompeloeil::list_elem<(.*)>::(next|prev)$", field)
         t = m.group(1) if m else ""
@@ -118,8 +154,10 @@ def classify_field(field):
         return "G"
     if fe in ("trompeloeil::list_elem::next", "trompeloeil::list_elem::prev"):
         return "clause-node links (publish-immutable)"
-    if fe == "trompeloeil::null_on_move::p":
+    if fe == "trompeloeil::null_on_move::p" or (fe.startswith("trompeloeil::null_on_move::") and fe in DYN_G):
         return "G"  # any instantiation of the slot type
+    if fe in DYN_CONTAINER:
+        return "container"
     for name, tab in (("publish-immutable", PUBLISH_IMMUTABLE), ("container", CONTAINER),
                       ("builder-pointer", BUILDER_POINTER), ("atomic", ATOMIC), ("local", LOCAL)):
         if fe in tab:
@@ -693,6 +731,7 @@ def run(ctx):
     units = []
     locks = set()
     for tu in ctx.units(lambda n: not n.startswith("print")):
+        set_unit(tu)
         la = c12a(ctx, tu)
         c12d(ctx, tu)
         c12e(ctx, tu, la)
